@@ -126,6 +126,10 @@ def scenarios(ctx):
         out.append(Std('pub-persist-disconnect-%s' % mode, profile='pub', mode=mode, init=CONNECTED_P, connects=[(False, 0, 4)],
                        reconnects=[(False, 0, 4)], pub_qos=(0, 1), windows=(1, 2),
                        budgets=dict(pub=3, ack=1 if q else 2, disconnect=1, lose=1, rebuild=1, connect=1, connack=1)))
+    # the window is changed from inside the success callback of a publish
+    for n in (1, 3):
+        out.append(Std('pub-reenter-setwin%d' % n, profile='pub', mode='sync', init=CONNECTED + (('setwin', 0, 2),), pub_qos=(0, 1, 2),
+                       reenter=('ok:pub>setwin%d' % n,), budgets=dict(pub=4, ack=2 if q else 3)))
     # the application's success callbacks return Deferreds that have not fired yet
     out.append(Std('pub-callback-returns-deferred', profile='pub', mode='sync', init=CONNECTED, windows=(1, 2), pub_qos=(0, 1, 2),
                    cb_deferred=True, budgets=dict(pub=3, ack=3, setwin=1, tick=1)))
